@@ -32,8 +32,10 @@ def truth(t):
     if isinstance(t, (Obj, ClsRef, FuncRef, Bound, LambdaRef, EnumVal, GenObj)):
         return True
     if isinstance(t, (ListObj,)):
-        if not t.open:
-            return len(t.items) > 0
+        # a mutable list: an empty one may be appended to later (in a loop whose
+        # body is analysed once), so only "non-empty" is a stable fact
+        if not t.open and len(t.items) > 0:
+            return True
         return None
     if isinstance(t, TupleT):
         return len(t.items) > 0
